@@ -1,10 +1,226 @@
-import Pyc.Model.Addr
+import Pyc.Proofs.AddrText
+
+/-! # C15 — addresses encode and decode bijectively per CIP-19 and CIP-5
+
+Property theorems only.  The models (`Pyc/Model/Addr.lean`, `Pyc/Model/Bech32.lean`) transliterate
+`pycardano/address.py` and `pycardano/crypto/bech32.py`; `Pyc/Spec/Cip19.lean` is the independent statement of the
+CIP-19 layout.  Every theorem is for all inputs (naturals, byte strings and character strings of any size); the only
+finite table is the single-error table of the checksum (`error_table`, `decide +kernel` in `Proofs/Bech32.lean`).
+
+Modelled on purpose, as the code does it: the checksum acceptor takes the Bech32 **and** the Bech32m constant (the
+error table excludes both); strings are limited to 108 characters (`addr_text_total_counterexample`);
+`PointerAddress.decode` accepts non-minimal digits (no theorem claims otherwise).
+
+Not proved here (covered by the exhaustive substitution stream of `harness/checks/c15.py` only): rejection after a
+substitution *inside the human-readable prefix*, *by the separator character* or by a character outside the charset. -/
 
 namespace Pyc.C15
-open Pyc Pyc.Addr
+open Pyc Pyc.Addr Pyc.Bech32 Pyc.Spec
 
-theorem placeholder : Network.ofValue 1 = some .mainnet := by decide
+/-! ## pointers: base-128 naturals -/
+
+/-- the decoder loop, positioned before `_encode_int n`, consumes exactly those bytes and yields `n` -/
+theorem varnat_roundtrip (n : Nat) (rest : Bytes) (ints : List Nat) :
+    decLoop (encodeInt n ++ rest) 0 ints = decLoop rest 0 (ints ++ [n]) :=
+  decLoop_encodeInt n rest ints
+
+/-- no leading zero group, and the length is the least number of base-128 digits that can hold `n` -/
+theorem varnat_minimal (n : Nat) :
+    (encodeInt n).head? ≠ some 0x80 ∧ n < 128 ^ (encodeInt n).length ∧
+      (128 ≤ n → 128 ^ ((encodeInt n).length - 1) ≤ n) := by
+  refine ⟨encodeInt_head n, ?_, ?_⟩
+  · rw [encodeInt_length, Nat.pow_succ]
+    have := (encTail_length_bounds (n / 128)).1
+    omega
+  · intro h
+    rw [encodeInt_length, Nat.add_sub_cancel]
+    have hq : n / 128 ≠ 0 := by omega
+    have h2 := (encTail_length_bounds (n / 128)).2 hq
+    have hk : (encTail (n / 128)).length ≠ 0 := by rw [encTail_pos _ hq]; simp
+    have e : (encTail (n / 128)).length = ((encTail (n / 128)).length - 1) + 1 := by omega
+    rw [e, Nat.pow_succ]
+    omega
+
+/-- `_encode_int n` is the CIP-19 variable-length natural `n` (flags, value, minimality) -/
+theorem varnat_spec (n : Nat) : Cip19.IsVarnat n ((encodeInt n).map UInt8.toNat) := encodeInt_isVarnat n
+
+/-- a pointer is three variable-length naturals, and decodes to itself -/
+theorem pointer_roundtrip (slot tx cert : Nat) :
+    ptrEncode slot tx cert = encodeInt slot ++ encodeInt tx ++ encodeInt cert ∧
+      ptrDecode (ptrEncode slot tx cert) = some (slot, tx, cert) :=
+  ⟨rfl, ptr_roundtrip slot tx cert⟩
+
+/-! ## binary form -/
+
+/-- header = kind in the high nibble, network in the low nibble; the decoder's masks recover both -/
+theorem header_spec (t : AddressType) (n : Network) :
+    (headerByte t n).toNat = Cip19.header t.value n.value ∧
+      AddressType.ofValue (((headerByte t n).toNat &&& 0xF0) >>> 4) = some t ∧
+      Network.ofValue ((headerByte t n).toNat &&& 0x0F) = some n :=
+  ⟨headerByte_toNat t n, header_kind t n, header_network t n⟩
+
+/-- kind inference is the CIP-19 type table; exactly the ten Shelley combinations are constructible -/
+theorem kind_table_spec (p s : Part) : (inferType p s).map AddressType.value = specType p s :=
+  inferType_spec p s
+
+/-- binary form = header byte, payment credential, delegation part -/
+theorem addr_bytes_layout (a : Address) (bs : Bytes) (h : toBytes a = some bs) :
+    ∃ t, inferType a.payment a.staking = some t ∧
+      bs = headerByte t a.network :: (a.payment.bytes ++ a.staking.bytes) := by
+  unfold toBytes at h
+  split at h
+  · exact absurd h (by simp)
+  · rename_i t ht
+    exact ⟨t, ht, by simpa using h.symm⟩
+
+/-- decoding the binary form of any constructible address (all ten kinds, both networks, any 28-byte credentials, any
+pointer) returns that address; the constructors `Part.vkh` / `Part.sh` / `Part.ptr` are the credential kinds -/
+theorem addr_bytes_roundtrip (a : Address) (bs : Bytes) (hp : a.payment.Sized) (hs : a.staking.Sized)
+    (h : toBytes a = some bs) : fromBytes bs = .ok a :=
+  fromBytes_toBytes a bs hp hs h
+
+/-- no two different addresses share a binary form -/
+theorem addr_bytes_injective (a b : Address) (bs : Bytes) (ha : a.payment.Sized ∧ a.staking.Sized)
+    (hb : b.payment.Sized ∧ b.staking.Sized) (h1 : toBytes a = some bs) (h2 : toBytes b = some bs) : a = b := by
+  have e1 := fromBytes_toBytes a bs ha.1 ha.2 h1
+  have e2 := fromBytes_toBytes b bs hb.1 hb.2 h2
+  rw [e1] at e2
+  exact Except.ok.inj e2
+
+/-! ## text form -/
+
+/-- CIP-5 prefix: `stake` for the reward types, `addr` otherwise, `_test` off mainnet -/
+theorem hrp_spec (t : AddressType) (n : Network) :
+    Addr.hrp t n = (Cip19.prefixOf (decide (14 ≤ t.value)) n.value).toList :=
+  Addr.hrp_spec t n
+
+/-- 8→5 bits with padding, then 5→8 without, is the identity on byte strings of any length -/
+theorem convertbits_roundtrip (bs : Bytes) :
+    ∃ out, convertbits (bs.map UInt8.toNat) 8 5 true = some out ∧ (∀ d ∈ out, d < 32) ∧
+      convertbits out 5 8 false = some (bs.map UInt8.toNat) := by
+  obtain ⟨out, e1, ho, _, _, e2⟩ := convertbits_roundtrip_nat (bs.map UInt8.toNat) (uint8_map_lt bs)
+  exact ⟨out, e1, ho, e2⟩
+
+/-- the six checksum symbols written by `bech32_create_checksum` make the string verify -/
+theorem checksum_valid (hrp : List Char) (data : List Nat) :
+    verifyChecksum hrp (data ++ createChecksum hrp data false) = some .bech32 :=
+  verify_of_polymod_one _ _ (Bech32.checksum_valid hrp data)
+
+/-- `decode (encode hrp bs) = bs` for every non-empty printable lower-case prefix and every payload of at least two
+bytes whose string fits the 108-character limit of the code -/
+theorem bech32_roundtrip (hrp : List Char) (bs : Bytes) (hh : HrpOk hrp) (h2 : 2 ≤ bs.length)
+    (hlen : hrp.length + 7 + (8 * bs.length + 4) / 5 ≤ 108) :
+    ∃ s, encode hrp bs = some s ∧ decode s = .ok (bs.map UInt8.toNat) := by
+  obtain ⟨s, hs⟩ := encode_some hrp bs hh hlen
+  exact ⟨s, hs, decode_encode hrp bs hh h2 s hs⟩
+
+/-- beyond 108 characters `encode` returns `None` -/
+theorem bech32_encode_limit (hrp : List Char) (bs : Bytes) (hh : HrpOk hrp)
+    (hlen : hrp.length + 7 + (8 * bs.length + 4) / 5 > 108) : encode hrp bs = none :=
+  encode_none hrp bs hh hlen
+
+/-- whatever string `Address.encode()` returns, `Address.decode` maps it back to the address -/
+theorem addr_text_roundtrip (a : Address) (s : List Char) (hp : a.payment.Sized) (hs : a.staking.Sized)
+    (h : toBech32 a = some (some s)) : fromBech32 s = .ok a :=
+  fromBech32_toBech32 a s hp hs h
+
+/-- GOAL (full strength): every constructible address has a text form. -/
+def addr_text_total_goal : Prop :=
+  ∀ a : Address, a.payment.Sized → a.staking.Sized → toBytes a ≠ none → ∃ s, toBech32 a = some (some s)
+
+/-- proved part: it has one whenever prefix + separator + data + checksum fit in 108 characters (every address without
+a pointer, every mainnet address with pointer components below 2^64, testnet pointers of at most 28 bytes) -/
+theorem addr_text_total_partial (a : Address) (bs : Bytes) (t : AddressType)
+    (ht : inferType a.payment a.staking = some t) (hb : toBytes a = some bs)
+    (hlen : (Addr.hrp t a.network).length + 7 + (8 * bs.length + 4) / 5 ≤ 108) : ∃ s, toBech32 a = some (some s) :=
+  toBech32_some a bs t ht hb hlen
+
+/-- the full-strength goal is false of the model (and of the pinned code): a testnet pointer address with three
+10-byte components has a 111-character text form, and `Address.encode()` returns `None` -/
+theorem addr_text_total_counterexample : ¬ addr_text_total_goal := by
+  intro h
+  let a : Address := ⟨.vkh (List.replicate 28 0), .ptr (2 ^ 63) (2 ^ 63) (2 ^ 63), .testnet⟩
+  obtain ⟨s, hs⟩ := h a (by simp [a, Part.Sized]) (by simp [a, Part.Sized]) (by simp [a, toBytes, inferType])
+  have hb : toBytes a = some (headerByte .keyPointer .testnet ::
+      (List.replicate 28 0 ++ ptrEncode (2 ^ 63) (2 ^ 63) (2 ^ 63))) := rfl
+  have hl := encodeInt_2_63_length
+  have := toBech32_none a _ .keyPointer rfl hb (by
+    have : (Addr.hrp .keyPointer a.network).length = 9 := by decide
+    rw [this]
+    simp only [List.length_cons, List.length_append, List.length_replicate, ptrEncode]
+    omega)
+  rw [this] at hs
+  exact absurd hs (by simp)
+
+/-! ## error detection of the checksum -/
+
+/-- one checksum step is GF(2)-linear in (register, symbol) -/
+theorem polymod_step_linear (c1 c2 v1 v2 : Nat) :
+    polymodStep (c1 ^^^ c2) (v1 ^^^ v2) = polymodStep c1 v1 ^^^ polymodStep c2 v2 :=
+  polymodStep_xor c1 c2 v1 v2
+
+/-- … and so is the whole register over equal-length symbol sequences -/
+theorem polymod_linear (v1 v2 : List Nat) (c1 c2 : Nat) (h : v1.length = v2.length) :
+    polymodFrom (c1 ^^^ c2) (List.zipWith (· ^^^ ·) v1 v2) = polymodFrom c1 v1 ^^^ polymodFrom c2 v2 :=
+  polymodFrom_xor v1 v2 c1 c2 h
+
+/-- the whole single-error table: an error `e ∈ [1, 31]` in one symbol, `k < 130` symbols before the end, changes the
+residue by something that maps neither accepted constant (1, 0x2BC830A3) to an accepted constant -/
+theorem error_table (e k : Nat) (he1 : 1 ≤ e) (he : e < 32) (hk : k < 130) :
+    errRes e k ≠ 0 ∧ errRes e k ≠ 1 ^^^ bech32mConst := by
+  have := errRes_ok e k he1 he hk
+  simpa [okRes] using this
+
+/-- a string that `bech32_decode` accepts is rejected after one character of its data part (payload or checksum) is
+replaced by a different charset character -/
+theorem single_subst_rejected (hrp pre suf : List Char) (c c' : Char)
+    (hA : ∀ x ∈ hrp, 33 ≤ x.toNat ∧ x.toNat ≤ 126)
+    (hpre : ∀ x ∈ pre, x ∈ charset) (hsuf : ∀ x ∈ suf, x ∈ charset) (hc : c ∈ charset) (hc' : c' ∈ charset)
+    (hne : c ≠ c') (hvalid : bech32Decode (hrp ++ '1' :: (pre ++ c :: suf)) ≠ none) :
+    bech32Decode (hrp ++ '1' :: (pre ++ c' :: suf)) = none :=
+  subst_rejected hrp pre suf c c' hA hpre hsuf hc hc' hne hvalid
+
+/-- hence `Address.decode` raises on it instead of returning some other address -/
+theorem addr_single_subst_rejected (hrp pre suf : List Char) (c c' : Char)
+    (hA : ∀ x ∈ hrp, 33 ≤ x.toNat ∧ x.toNat ≤ 126)
+    (hpre : ∀ x ∈ pre, x ∈ charset) (hsuf : ∀ x ∈ suf, x ∈ charset) (hc : c ∈ charset) (hc' : c' ∈ charset)
+    (hne : c ≠ c') (a : Address) (hvalid : fromBech32 (hrp ++ '1' :: (pre ++ c :: suf)) = .ok a) :
+    fromBech32 (hrp ++ '1' :: (pre ++ c' :: suf)) = .error .bech32 :=
+  fromBech32_subst hrp pre suf c c' hA hpre hsuf hc hc' hne a hvalid
+
+/-! ## non-vacuity: the hypotheses above are satisfiable by concrete inputs -/
+
+example : HrpOk "addr_test".toList ∧ HrpOk "stake".toList := by decide
+
+/-- BIP-173 test vector `a12uel5l`: accepted, so `single_subst_rejected` applies to it with `pre = []`, `c = '2'` -/
+example : bech32Decode ("a".toList ++ '1' :: ([] ++ '2' :: "uel5l".toList)) = some (['a'], [], .bech32) := by decide
+
+example : fromBytes (headerByte .keyNone .mainnet :: List.replicate 28 7)
+    = .ok ⟨.vkh (List.replicate 28 7), .none, .mainnet⟩ := by rfl
+
+example : toBytes ⟨.none, .sh (List.replicate 28 9), .testnet⟩ = some (0xF0 :: List.replicate 28 9) := by decide
 
 end Pyc.C15
 
-#print axioms Pyc.C15.placeholder
+#print axioms Pyc.C15.varnat_roundtrip
+#print axioms Pyc.C15.varnat_minimal
+#print axioms Pyc.C15.varnat_spec
+#print axioms Pyc.C15.pointer_roundtrip
+#print axioms Pyc.C15.header_spec
+#print axioms Pyc.C15.kind_table_spec
+#print axioms Pyc.C15.addr_bytes_layout
+#print axioms Pyc.C15.addr_bytes_roundtrip
+#print axioms Pyc.C15.addr_bytes_injective
+#print axioms Pyc.C15.hrp_spec
+#print axioms Pyc.C15.convertbits_roundtrip
+#print axioms Pyc.C15.checksum_valid
+#print axioms Pyc.C15.bech32_roundtrip
+#print axioms Pyc.C15.bech32_encode_limit
+#print axioms Pyc.C15.addr_text_roundtrip
+#print axioms Pyc.C15.addr_text_total_partial
+#print axioms Pyc.C15.addr_text_total_counterexample
+#print axioms Pyc.C15.polymod_step_linear
+#print axioms Pyc.C15.polymod_linear
+#print axioms Pyc.C15.error_table
+#print axioms Pyc.C15.single_subst_rejected
+#print axioms Pyc.C15.addr_single_subst_rejected
